@@ -59,3 +59,7 @@ func (DetReader) Read(b []byte) (int, error) {
 	}
 	return len(b), nil
 }
+
+// PlainRandInt, when set, answers crypto/rand.Int draws in passthrough mode (single-threaded
+// enumeration harnesses use it to choose the padding length).
+var PlainRandInt func(n int) int
